@@ -34,6 +34,9 @@ def run(rep, idx, tier):
     rep.require("C12.5", 3)
     from .c19 import shared_state
     shared_state(rep, idx, rule="C12.5", classes=["R", "W", "RW", "RW1C", "RW1S", "_Reserved", "FieldAction"])
+    from .c20 import plain_member_directions
+    rep.require("C12.6", 4)
+    plain_member_directions(rep, idx, "C12.6", only_module="csr/action.py")
     from . import glue
     glue.reset_discipline(rep, "C12.5", idx, ["csr/action:RW", "csr/action:RW1C", "csr/action:RW1S"],
                           allowed_init=[(("RW", "_storage"), "init"), (("RW1C", "_storage"), "init"), (("RW1S", "_storage"), "init")])
